@@ -1,4 +1,47 @@
-// harnesses for this file are added below
+// Executable mirrors for lightning/src/chain/package.rs (on-chain claim fee bumping)
 use super::*;
 include!("/verif/hooks/common.rs");
-pub fn replay(_name: &str, _a: &[u128]) -> Option<Outcome> { None }
+use crate::util::logger::{Logger, Record};
+
+pub struct FixedEst(pub u32);
+impl FeeEstimator for FixedEst {
+	fn get_est_sat_per_1000_weight(&self, _t: ConfirmationTarget) -> u32 {
+		self.0
+	}
+}
+pub struct NoLog;
+impl Logger for NoLog {
+	fn log(&self, _r: Record) {}
+}
+
+// u07/feerate_bump: fees are raised monotonically; a real bump respects BIP-125 rules 3-4 and never goes into dust
+pub fn contract_feerate_bump(w: u64, input: u64, dust: u64, prev: u64, strat: u8, est: u32) -> Outcome {
+	if w < 100 || w > 4_000_000 || input > 21_000_000_0000_0000 || prev < 1 || prev > u32::MAX as u64 || dust < 1 {
+		return Outcome::Vacuous;
+	}
+	let s = match strat % 3 {
+		0 => FeerateStrategy::RetryPrevious,
+		1 => FeerateStrategy::HighestOfPreviousOrNew,
+		_ => FeerateStrategy::ForceBump,
+	};
+	let fe = LowerBoundedFeeEstimator::new(FixedEst(est));
+	match feerate_bump(w, input, dust, prev, &s, ConfirmationTarget::UrgentOnChainSweep, &fe, &NoLog) {
+		None => Outcome::Holds,
+		Some((fee, rate)) => {
+			let prev_fee = prev as u128 * w as u128 / 1000;
+			let mut ok = rate >= prev && fee as u128 >= prev_fee;
+			if rate > prev {
+				ok = ok && fee as u128 >= prev_fee + 253 * w as u128 / 1000 && fee <= input && input - fee >= dust;
+			}
+			if ok { Outcome::Holds } else { Outcome::Violated }
+		},
+	}
+}
+pub fn replay(name: &str, a: &[u128]) -> Option<Outcome> {
+	Some(match name {
+		"feerate_bump" => contract_feerate_bump(a[0] as u64, a[1] as u64, a[2] as u64, a[3] as u64, a[4] as u8, a[5] as u32),
+		"feerate_bump_norm" => contract_feerate_bump(100 + (a[0] % 3_999_901) as u64, (a[1] % 21_000_000_0000_0000) as u64, 1 + (a[2] % 100_000) as u64,
+			1 + (a[3] % u32::MAX as u128) as u64, a[4] as u8, a[5] as u32),
+		_ => return None,
+	})
+}
